@@ -304,6 +304,23 @@ static void c17_weighted(vr_rng *r)
         if (vr_nviol == 0) { cmb_wtdsummary_add(res, 1.5, 2.0); cmb_wtdsummary_add(s, 1.5, 2.0); if (!rel_close(cmb_wtdsummary_mean(res), cmb_wtdsummary_mean(s), 1e-9, 1e-9 * (mx - mn + 1))) vr_violation("C17/wtd-merge/poisoned", "adding to a merged summary (%zu + %zu) gives mean %g, expected %g", cut, n - cut, cmb_wtdsummary_mean(res), cmb_wtdsummary_mean(s)); }
         cmb_wtdsummary_destroy(a); cmb_wtdsummary_destroy(b); cmb_wtdsummary_destroy(t);
     }
+    /* an empty result in a used target, used on: two empties merged into a summary that holds older data, which is then merged with the data */
+    if (vr_nviol == 0 && np > 0) {
+        struct cmb_wtdsummary *e1 = cmb_wtdsummary_create(), *e2 = cmb_wtdsummary_create(), *t = cmb_wtdsummary_create(), *out = cmb_wtdsummary_create();
+        for (int k = 0; k < 6; k++) cmb_wtdsummary_add(t, 50.0 + 3.0 * k, 2.0 + k);
+        if (vr_chance(r, 1, 2)) { cmb_wtdsummary_add(e1, 9.0, 4.0); cmb_wtdsummary_reset(e1); }
+        if (vr_chance(r, 1, 2)) cmb_wtdsummary_add(e2, 1.0, 0.0);                 /* a zero-weight sample only: still empty */
+        uint64_t c0 = cmb_wtdsummary_merge(t, e1, e2);
+        if (c0 != 0 || cmb_wtdsummary_count(t) != 0) vr_violation("C17/wtd-merge/count", "two empty weighted summaries merged into a used one: count %" PRIu64, cmb_wtdsummary_count(t));
+        else { if (vr_chance(r, 1, 2)) cmb_wtdsummary_merge(out, t, s); else cmb_wtdsummary_merge(out, s, t);
+            const char *bad = NULL;
+            if (cmb_wtdsummary_count(out) != cmb_wtdsummary_count(s)) bad = "count";      /* (s may have received one more sample above) */
+            else if (!rel_close(cmb_wtdsummary_mean(out), cmb_wtdsummary_mean(s), 1e-12, 1e-12 * (mx - mn + 1e-300))) bad = "mean";
+            else if (cmb_wtdsummary_count(s) > 1 && !rel_close(cmb_wtdsummary_variance(out), cmb_wtdsummary_variance(s), 1e-9, 1e-300)) bad = "variance";
+            if (bad) { char kb[64]; snprintf(kb, sizeof kb, "C17/wtd-merge/%s", bad); vr_violation(kb, "data merged with a summary that had been emptied by merging two empty ones into it: %s %.12g, without the detour %.12g", bad, bad[0] == 'm' ? cmb_wtdsummary_mean(out) : bad[0] == 'v' ? cmb_wtdsummary_variance(out) : (double)cmb_wtdsummary_count(out), bad[0] == 'm' ? cmb_wtdsummary_mean(s) : bad[0] == 'v' ? cmb_wtdsummary_variance(s) : (double)cmb_wtdsummary_count(s)); }
+            VR_CNT("merges_with_a_summary_emptied_by_a_merge"); }
+        cmb_wtdsummary_destroy(e1); cmb_wtdsummary_destroy(e2); cmb_wtdsummary_destroy(t); cmb_wtdsummary_destroy(out);
+    }
     if (np >= 4) vr_mark_nontrivial();
     cmb_wtdsummary_destroy(s); free(x); free(w);
 }
@@ -344,6 +361,8 @@ static void c18_order(vr_rng *r)
     int cls = (int)vr_below(r, G_N); size_t n = pick_len18(r);
     if (cls == G_BIG || cls == G_SMALL) cls = G_INTS;
     double *x = malloc((n + 2) * sizeof *x); gen_data(r, cls, x, n);
+    /* one input in ten: the same shape of data, in multiples of the smallest subnormal (levels 1..5 x 2^-1074): halves are not exact down there */
+    if (vr_chance(r, 1, 10)) { for (size_t k = 0; k < n; k++) { double a = fabs(x[k]) * 3.0; if (!(a < 1e15)) a = 2.0; x[k] = (double)(1 + (uint64_t)a % 5) * 0x1p-1074; } VR_CNT("inputs_in_the_subnormal_range"); }
     vr_fp_mix((uint64_t)cls); vr_fp_mix(n);
     vr_cnt_dyn(n <= 5 ? "size_1_5" : n < 1023 ? "size_6_1022" : n <= 1025 ? "size_1023_1025" : n <= 2049 ? "size_2047_2049" : "size_large", 1);
     char *buf = NULL; size_t bl = 0; FILE *mf;
@@ -428,6 +447,22 @@ static void c18_order(vr_rng *r)
             VR_CNT("copies_mutated");
         }
         cmb_timeseries_reset(&tc);
+        /* copies onto a target that is in use, also from an empty source: the target becomes an exact copy, and stays a usable series */
+        if (vr_nviol == 0) {
+            struct cmb_timeseries *used = cmb_timeseries_create(), *empty = cmb_timeseries_create();
+            size_t j0 = vr_chance(r, 1, 2) ? 3 : 1100; for (size_t k = 0; k < j0; k++) cmb_timeseries_add(used, 100.0 + (double)k, (double)k);
+            cmb_timeseries_copy(used, ts);
+            const struct cmb_dataset *ud = (const struct cmb_dataset *)used;
+            if (ud->count != m || memcmp(ud->xa, td->xa, m * 8) || memcmp(used->ta, ts->ta, m * 8) || memcmp(used->wa, ts->wa, m * 8)) vr_violation("C18/ts-copy", "copy onto a series in use differs from its source (n=%zu)", m);
+            else {
+                cmb_timeseries_copy(used, empty);
+                if (cmb_timeseries_count(used) != 0) vr_violation("C18/ts-copy", "copy of an empty series onto a series in use leaves %" PRIu64 " samples", cmb_timeseries_count(used));
+                else { for (size_t k = 0; k < 40; k++) cmb_timeseries_add(used, (double)(k % 5), 2.0 * (double)k); cmb_timeseries_finalize(used, 100.0);      /* ASan watches the arrays of the recycled target */
+                    double med = cmb_timeseries_median(used); if (!(med >= 0.0 && med <= 4.0)) vr_violation("C18/ts-median/after-copy", "median %g of values 0..4 in a series that had received a copy of an empty one", med); }
+                VR_CNT("copies_onto_a_series_in_use");
+            }
+            cmb_timeseries_destroy(used); cmb_timeseries_destroy(empty);
+        }
         if (vr_nviol) { free(tr); free(tr2); break; }
         /* weighted median */
         {
